@@ -1,7 +1,7 @@
 (* Properties_C02.v — C02: division returns the exact quotient/remainder with the documented
    rounding.  Statements only. *)
 From Coq Require Import ZArith List Bool.
-From Mpir Require Import DcDivDefs DcDivProofs Word Limbs MpnBasicDefs MpzDefs DivDefs DivWordProofs DivWord2Proofs DivProofs.
+From Mpir Require Import DcDivDefs DcDivProofs SbDivDefs SbDivProofs Word Limbs MpnBasicDefs MpzDefs DivDefs DivWordProofs DivWord2Proofs DivProofs.
 Import ListNotations.
 Local Open Scope Z_scope.
 
@@ -115,6 +115,25 @@ Theorem C02_dc_div_qr_n_is_div_mod : forall basediv mmin thr fuel lfuel n N D,
   let '(qh, Q, R) := dc_div_qr_n basediv fuel lfuel thr n N D in qh * Bp n + Q = N / D /\ R = N mod D.
 Proof. exact dc_div_qr_n_div_mod. Qed.
 Print Assumptions C02_dc_div_qr_n_is_div_mod.
+
+
+(* schoolbook division as coded (mpn/generic/sb_div_qr.c): initial compare/subtract, then per quotient limb the 3-by-2 estimate
+   (or B-1 when the two top limbs equal the divisor's), submul of the low divisor limbs, the sub_333 borrow test and the single
+   add-back: exact for every numerator, every normalised divisor of at least 3 limbs; the estimate is never more than 1 too large *)
+Theorem C02_sb_div_qr : forall nn dn N D, 3 <= dn -> dn <= nn -> 0 <= N < Bp nn -> Bp dn / 2 <= D < Bp dn ->
+  let '(qh, Q, R) := sb_div_qr nn dn N D in
+  N = (qh * Bp (nn - dn) + Q) * D + R /\ 0 <= R < D /\ 0 <= Q < Bp (nn - dn) /\ (qh = 0 \/ qh = 1).
+Proof. exact sb_div_qr_correct. Qed.
+Print Assumptions C02_sb_div_qr.
+
+(* ... which discharges the base-case hypothesis of the divide-and-conquer theorem: schoolbook below the threshold,
+   divide-and-conquer above, no assumption left *)
+Theorem C02_dc_over_sb : forall thr fuel lfuel n N D, 6 <= thr -> (4 <= lfuel)%nat -> 6 <= n -> n <= 2 ^ Z.of_nat fuel ->
+  0 <= N < Bp (2 * n) -> Bp n / 2 <= D < Bp n ->
+  let '(qh, Q, R) := dc_div_qr_n sb_basediv fuel lfuel thr n N D in
+  N = (qh * Bp n + Q) * D + R /\ 0 <= R < D /\ 0 <= Q < Bp n /\ (qh = 0 \/ qh = 1).
+Proof. exact dc_with_sb_correct. Qed.
+Print Assumptions C02_dc_over_sb.
 
 Example C02_nonvacuous :
   B / 2 <= B - 1 < B /\ udiv_qrnnd_preinv1 (B - 2) (B - 1) (B - 1) (invert_limb (B - 1)) = (B - 1, B - 2)
